@@ -129,6 +129,16 @@ def handle : List String → String
       | .ok id => s!"ok {id}"
       | .panic => "panic"
     | _, _, _ => "bad-op"
+  | ["stun", d] => match unhex d with
+    | some d =>
+      match stunParse d with
+      | .notStun => "notstun"
+      | .notBinding => "notbinding"
+      | .malformed => "malformed"
+      | .noFingerprint => "nofp"
+      | .crc n => s!"crc {n}"
+      | .panic => "panic"
+    | none => "bad-op"
   | ["cz", c, cd, ah, ninf, ci, ch] =>
     match parseCause c, parseBool cd, ah.toNat?, ninf.toNat?, ci.toNat?, ch.toNat? with
     | some c, some cd, some ah, some ninf, some ci, some ch =>
